@@ -333,9 +333,10 @@ impl<'tcx> Cx<'tcx> {
                 rustc_hir::intravisit::Visitor::visit_expr(&mut ub, hbody.value);
             }
         }
+        let idargs: Vec<String> = ty::GenericArgs::identity_for_item(tcx, did).iter().map(|g| self.garg(g)).collect();
         let ubs: Vec<String> = ub.spans.iter().map(|(sp, user)| format!("{{\"span\":{},\"user\":{}}}", self.span(*sp), user)).collect();
-        let _ = write!(out, "{{\"def\":{},\"kind\":{},\"impl\":{},\"in_trait\":{},\"root\":{},\"vis\":{},\"unsafe_fn\":{},\"preds\":[{}],\"unsafe_blocks\":[{}],\"span\":{},\"arg_count\":{},\"locals\":[{}],\"blocks\":[{}]}}",
-            esc(&tcx.def_path_str(did)), esc(&format!("{:?}", tcx.def_kind(did))), impl_info, in_trait, esc(&tcx.def_path_str(root)), vis, self.is_unsafe_fn(did), preds.join(","), ubs.join(","),
+        let _ = write!(out, "{{\"def\":{},\"kind\":{},\"impl\":{},\"in_trait\":{},\"root\":{},\"vis\":{},\"unsafe_fn\":{},\"preds\":[{}],\"generics\":[{}],\"unsafe_blocks\":[{}],\"span\":{},\"arg_count\":{},\"locals\":[{}],\"blocks\":[{}]}}",
+            esc(&tcx.def_path_str(did)), esc(&format!("{:?}", tcx.def_kind(did))), impl_info, in_trait, esc(&tcx.def_path_str(root)), vis, self.is_unsafe_fn(did), preds.join(","), idargs.join(","), ubs.join(","),
             self.span(tcx.def_span(did)), body.arg_count, locals.join(","), blocks.join(","));
     }
 
